@@ -159,6 +159,15 @@ def build_node(sched, script, modules=('m',), omit=None):
                 def cb(*value_err, _m=name, _p=pobj):
                     sched.log.append(('cache', f'{_m}:{_p.export}', cache_key(value_err, _p)))
                 mod.addCallback(pname, cb)
+        # mark the end of every notification (the broadcast to the listeners has returned)
+        orig = mod.updateCallback
+
+        def announce(moduleobj, pobj, _orig=orig):
+            try:
+                _orig(moduleobj, pobj)
+            finally:
+                sched.log.append(('bcast-done', f'{moduleobj.name}:{pobj.export}'))
+        mod.updateCallback = announce
     return node
 
 
